@@ -90,6 +90,8 @@ Definition entries : list entry :=
        e_classes := [CInvariant native_checked; CInvariant native_checked] |};
     {| e_pkg := "interp"; e_func := "fromNative"; e_kind := SKPanic;
        e_classes := [CInvariant native_checked; CInvariant native_checked] |};
+    {| e_pkg := "interp"; e_func := "*interp.sprintf"; e_kind := SKIndex;
+       e_classes := [CInvariant "C09_sprintf_no_panic (Properties/C09.v): parseFmtTypes records one offset in stars for every 'p' it puts in types, sprintf takes stars[0] once per 'p'"] |};
     {| e_pkg := "interp"; e_func := "*interp.getSpecial"; e_kind := SKPanic; e_classes := [CInvariant verifier] |};
     {| e_pkg := "interp"; e_func := "*interp.setSpecial"; e_kind := SKMustCompile;
        e_classes := [CGuarded "utf8.ValidString(RS) is tested first (C02_rs_one_byte_never_panics): a valid empty or one-byte string quoted by QuoteMeta is a valid pattern";
@@ -107,12 +109,12 @@ Definition entries : list entry :=
     {| e_pkg := "interp"; e_func := "*interp.splitOnFieldSepRegex"; e_kind := SKIndex;
        e_classes := [CGuarded regexp_contract; CGuarded regexp_contract] |};
     {| e_pkg := "interp"; e_func := "hasHexPrefix"; e_kind := SKIndex;
-       e_classes := [CGuarded "callers test len(s) first (parseFloat, parseFloatPrefix)"; CGuarded "same"; CGuarded "same"] |};
+       e_classes := [CGuarded "callers test len(s) first (parseFloat, parseFloatPrefix; C05_prefix_scan_no_panic)"; CGuarded "same"; CGuarded "same"] |};
     {| e_pkg := "interp"; e_func := "hasNaNPrefix"; e_kind := SKIndex;
-       e_classes := [CGuarded "callers test len(s) first (parseFloat, parseFloatPrefix)"; CGuarded "same"; CGuarded "same";
+       e_classes := [CGuarded "callers test len(s) first (parseFloat, parseFloatPrefix; C05_prefix_scan_no_panic)"; CGuarded "same"; CGuarded "same";
                      CGuarded "same"; CGuarded "same"; CGuarded "same"] |};
     {| e_pkg := "interp"; e_func := "hasInfPrefix"; e_kind := SKIndex;
-       e_classes := [CGuarded "caller tests i+3 <= len(s) first (parseFloatPrefix)"; CGuarded "same"; CGuarded "same";
+       e_classes := [CGuarded "caller tests i+3 <= len(s) first (parseFloatPrefix; C05_prefix_scan_no_panic)"; CGuarded "same"; CGuarded "same";
                      CGuarded "same"; CGuarded "same"; CGuarded "same"] |};
     {| e_pkg := "interp"; e_func := "*interp.execute"; e_kind := SKIndex;
        e_classes := [CInvariant verifier; CInvariant verifier; CInvariant verifier; CInvariant verifier;
